@@ -51,13 +51,13 @@ def execute(c):
     d = c["sp"][0] / c["sp"][1]
     adj = bool(c["adjust"])
     o = {}
-    o["iso"] = tree_result(lambda: lib.reused(IsometricResampler(d, adjust_last_gap=adj), c)(t))
+    o["iso"] = tree_result(lambda: lib.reused(IsometricResampler(d, adjust_last_gap=adj), c, t)(t))
     o["same"] = tree_result(lambda: BranchTreeAssembler()(BranchTree.from_tree(t)))
     brs = t.get_branches()
     b1 = min(brs, key=lambda b: int(b.origin_id()[-1]))
     o["blin"] = pts_result(lambda: BranchLinearResampler(c["n"])(b1))
     o["biso"] = pts_result(lambda: BranchIsometricResampler(d, adjust_last_gap=adj)(b1))
-    ts = tree_result(lambda: lib.reused(TreeSmoother(c["win"]), c)(t))
+    ts = tree_result(lambda: lib.reused(TreeSmoother(c["win"]), c, t)(t))
     o["tsm"] = ts
     o["bsm"] = pts_result(lambda: BranchConvSmoother(c["win"])(b1))
     return o
